@@ -10,9 +10,10 @@ T = {
 PROPS = {
  'C13': dict(
     title='Ties written by the generator are read back as the same ties by the solver',
-    functions=[GS + 'create_string_pref', FIO + '_get_simple_pref_list_and_ranks'],
-    lemmas=['C13/writer-shape', 'C13/compose'],
-    level_text='writer and reader verified for every list length and every tie-decision vector by loop invariants (no bound); composition lemma proves the property statement from the two postconditions',
+    functions=[GS + 'create_string_pref', FIO + '_get_simple_pref_list_and_ranks', 'generator_spa:Generator_spa.create_instance', 'generator_ha_sm_hr:Generator_ha_sm_hr.create_instance',
+               FIO + '_create_pairs_row', FIO + '_create_student_ranks'],
+    lemmas=['C13/writer-shape', 'C13/compose', 'C09/written-file-is-readable-2', 'C09/written-file-is-readable-3', 'C09/read-back-is-what-was-generated-2', 'C09/read-back-is-what-was-generated-3'],
+    level_text='writer and reader verified for every list length and every tie-decision vector by loop invariants (no bound); composition lemma proves the property statement from the two postconditions; both create_instance functions are verified to put every list on its own line bracketed by ITS OWN tie vector (lexical text model), the reader hands every line\'s tokens to the tie reader (_create_pairs_row, _create_student_ranks), and lemmas C09/read-back-is-what-was-generated-2/-3 conclude that the rank steps of every row read back are the generator\'s tie decisions',
     harness=True, bound='list length <= 8 (quick) / 12 (thorough), all 2^n decision vectors',
     trusted=[T['T6'], T['T7']],
     assumptions=['token strings are abstracted through the shape table Plain n | Open "(n" | Close "n)" (characters are T6/T7)',
@@ -206,12 +207,12 @@ PROPS['C09'] = dict(
     functions=[GS + 'create_string_pref', FIO + '_get_simple_pref_list_and_ranks', GS + 'create_quotas', SPA + 'create_project_lecturers',
                GS + 'create_pref_lists_from_other_lists', SPA + 'create_student_lec_lists', FIO + '_set_lecturers', FIO + '_set_lecturer_ranks', FIO + '_create_pairs_row',
                LP + 'upper_lower_constraints', LP + 'stability_constraints', MOD + 'check_stability', BF + 'is_valid', SPA + 'generate_instances', 'generator_ha_sm_hr:Generator_ha_sm_hr.generate_instances', SPA + 'create_instance', 'generator_ha_sm_hr:Generator_ha_sm_hr.create_instance', FIO + '_import_from_file', FIO + 'import_model'],
-    lemmas=['C05/prefix-filter', 'C13/compose', 'C12/spa-compose', 'C09/rank-keys', 'C09/quota-order', 'C08/shares', 'C08/spread-monotone', 'C09/written-file-is-readable-2', 'C09/written-file-is-readable-3'], level='other',
+    lemmas=['C05/prefix-filter', 'C13/compose', 'C12/spa-compose', 'C09/rank-keys', 'C09/quota-order', 'C08/shares', 'C08/spread-monotone', 'C09/written-file-is-readable-2', 'C09/written-file-is-readable-3', 'C09/read-back-is-what-was-generated-2', 'C09/read-back-is-what-was-generated-3'], level='other',
     level_text='composition obligations between the generator-side and reader-side contracts, each proved for all sizes: the tie writer\'s postcondition is the tie reader\'s precondition (C13/compose); generated quotas satisfy 0 <= lower <= target <= upper pointwise (C09/quota-order from the spreading lemmas and the accepted-argument postcondition); project lecturers are in range; every (lecturer, student) key the reader looks up is on that lecturer\'s generated list (C09/rank-keys from C12/spa-compose).  both generate_instances functions hand the writer a well-formed instance, and _import_from_file / import_model read every file of the documented shape without error into a well-formed model (sizes_ok, pairs_ok, derived lists).  NOT proved deductively (bounded stand-in): the two ends of the text layer (create_instance turning its lists into lines; a text line denoting its tokens, T7), and that both solving modes are correct on the loaded instance (C01-C07 instantiated)',
     harness=True, bound='n <= 4 agents per side, all four types, LP with 0-2 criteria (+-pc, +-stab) and brute force on every generated file',
     budget={'quick': 30, 'thorough': 400},
     trusted=[T['T6'], T['T7'], 'T8 file I/O', 'T10 RNG'],
-    assumptions=['writer -> reader is machine-checked at the level of lines of tokens: both create_instance functions are verified over the lexical view of the text they assemble, and lemmas C09/written-file-is-readable-2 / -3 prove every clause of the reader\'s precondition (the documented file format) from the writer\'s pre- and postcondition under -na 2 / -na 3 and -twopl iff second-side lists were written; T8 (the file reads back as the written lines) and the ghost tie decisions are modelling steps of those lemmas, the definition of elems is used in both directions',
+    assumptions=['writer -> reader is machine-checked at the level of lines of tokens: both create_instance functions are verified over the lexical view of the text they assemble, and lemmas C09/written-file-is-readable-2 / -3 prove every clause of the reader\'s precondition (the documented file format) from the writer\'s pre- and postcondition under -na 2 / -na 3 and -twopl iff second-side lists were written; lemmas C09/read-back-is-what-was-generated-2 / -3 prove that the model the reader returns for that text holds exactly the lists, tie groups, quotas, targets and project lecturers handed to the writer; T8 (the file reads back as the written lines) and the ghost tie decisions are modelling steps of those lemmas, the definition of elems is used in both directions',
                  'T7 the character level (a line denotes its tokens) and end-to-end solving of the read model (= C01-C07 instantiated): bounded stand-in only'])
 NOT_APPLICABLE = {}
 NOTES = 'see DESIGN.md; ./check Cxx --tier quick|thorough; exit 0 held / 1 VIOLATION / 2 undecided / 3 checker error'
